@@ -26,12 +26,17 @@ type c17Case struct {
 	S     int      `json:"start,omitempty"`
 	E     int      `json:"end,omitempty"`
 	Slice bool     `json:"slice,omitempty"`
+	Blank bool     `json:"blank_in_alphabet,omitempty"` // residues over all of 32..126 (minus '>')
 }
 
 func c17Residues(n, salt int) []byte {
 	p := make([]byte, n)
 	for i := range p {
 		c := byte(33 + (i*11+salt*7+i/93)%94)
+		if salt >= 100 {
+			// alphabet with the blank: all of 32..126
+			c = byte(32 + (i*11+salt*7+i/94)%95)
+		}
 		if c == '>' {
 			c = 'N'
 		}
@@ -79,6 +84,9 @@ func c17Eval(c c17Case) (ok bool, sig, detail string) {
 			for i, n := range c.Ns {
 				desc := c.Descs[i%len(c.Descs)]
 				data := c17Residues(n, i)
+				if c.Blank {
+					data = c17Residues(n, i+100)
+				}
 				// "description on one line": line breaks in a description are written as blanks
 				want = append(want, fastaRec{strings.ReplaceAll(desc, "\n", " "), string(data)})
 				var seq gts.Sequence = seqio.Fasta{Desc: desc, Data: cloneBytes(data)}
@@ -281,7 +289,7 @@ func init() {
 			if r.Tier == "thorough" {
 				maxN = 1500
 			}
-			r.Rule = fmt.Sprintf("every residue count 0..%d (all remainders mod 70) over printable bytes without '>', every description of <=3 symbols over {a,space,>,|,.}, streams of 1..5 records over a length menu incl. 0/69/70/71/140, LF and CRLF renderings, written as seqio.Fasta and as BasicSequence; descriptions with line breaks (written on one line), the size ladder up to 150000 (quick) / 3000000 (thorough) residues, streams whose second header starts at every offset around the multiples of 4096 up to 65536; every GenBank corpus record and a grid of slices, and generated records with DEFINITIONs of 1..6 lines, converted to FASTA; distinct key = the case; non-trivial = n>=1", maxN)
+			r.Rule = fmt.Sprintf("every residue count 0..%d (all remainders mod 70) over printable bytes 33..126 (and, for counts up to 300, over 32..126 with the blank) without '>', every description of <=3 symbols over {a,space,>,|,.}, streams of 1..5 records over a length menu incl. 0/69/70/71/140, LF and CRLF renderings, written as seqio.Fasta and as BasicSequence; descriptions with line breaks (written on one line), the size ladder up to 150000 (quick) / 3000000 (thorough) residues, streams whose second header starts at every offset around the multiples of 4096 up to 65536; every GenBank corpus record and a grid of slices, and generated records with DEFINITIONs of 1..6 lines, converted to FASTA; distinct key = the case; non-trivial = n>=1", maxN)
 			complete := true
 			eval := func(c c17Case, size int, nontriv bool) {
 				r.Evals.Add(1)
@@ -301,6 +309,10 @@ func init() {
 					eval(c17Case{Kind: "roundtrip", Ns: []int{n}, Descs: []string{"d e"}, CRLF: crlf}, n, n >= 1)
 				}
 				eval(c17Case{Kind: "roundtrip", Ns: []int{n}, Descs: []string{"x"}, Basic: true}, n, n >= 1)
+				if n <= 300 {
+					eval(c17Case{Kind: "roundtrip", Ns: []int{n, n}, Descs: []string{"b"}, Blank: true}, n, n >= 1)
+					eval(c17Case{Kind: "roundtrip", Ns: []int{n}, Descs: []string{"b"}, Blank: true, CRLF: true}, n, n >= 1)
+				}
 				if n%61 == 0 && r.WantSample() {
 					r.Sample(c17Case{Kind: "roundtrip", Ns: []int{n}, Descs: []string{"d e"}})
 				}
